@@ -415,4 +415,19 @@ theorem not_twice_later_core {fl : Flags} {p : Params} (hk : KeyOk fl p) (u : Li
   simp [hne]
 
 
+
+/-- under `KeyOk` every ATR transaction of the produced block spends a slip that passes `Slip::validate`, so
+    propagating the transaction verdict never rejects an honestly produced block -/
+theorem atrInputsValid_of_keyOk {fl : Flags} {p : Params} (hk : KeyOk fl p) (u : List Slip) (outs : List Out) :
+    atrInputsValid fl p u outs = true := by
+  have hk' : KeyOk fl { p with selfTreasury := 0 } := by
+    rcases hk with h | h
+    · exact Or.inl h
+    · exact Or.inr (by simpa [mult] using h)
+  unfold atrInputsValid produce
+  rw [List.all_eq_true]
+  intro r hr
+  obtain ⟨o, _, hel, _, hinp⟩ := nothing_else_core hk' u outs r hr
+  rw [hinp]; exact hel
+
 end Saito.Atr
